@@ -11,6 +11,7 @@ package c08
 import (
 	"bytes"
 	"encoding/binary"
+	"encoding/hex"
 	"fmt"
 	"strings"
 
@@ -540,4 +541,202 @@ func TarsAbsurdMapCount(b []byte) bool {
 		}
 	}
 	return false
+}
+
+// ---------------------------------------------------------------- bolt header-block grid
+
+// A bolt header block is a sequence of 4-byte-length prefixed strings, alternately key and value. The
+// decoders validate it (bolt.DecodeHeaderBlock) and then hand it to mosn.io/pkg/header.DecodeHeader, which
+// indexes without bounds checks: validator and parser walk the same bytes and must agree on every step
+// (a length of 0xFFFFFFFF resets the key/value parity in DecodeHeader). The grid builds every sequence of at
+// most maxStr strings whose ANNOUNCED length is one of
+//
+//	-1 (0xFFFFFFFF), 0, 1, 2, exactly the bytes that remain in the block, one more than remain, 0x7FFFFFFF, 0x80000000
+//
+// (the relative and absurd ones with 0 or 1 bytes of own content), optionally followed by one dangling byte.
+type hdrItem struct {
+	kind string // "-1" "0" "1" "2" "rem" "rem+1" "max" "min"
+	n    int    // own content bytes
+}
+
+var hdrItemOptions = []hdrItem{{"-1", 0}, {"0", 0}, {"1", 1}, {"2", 2}, {"rem", 0}, {"rem", 1}, {"rem+1", 0}, {"rem+1", 1}, {"max", 0}, {"min", 0}}
+
+func hdrBlock(items []hdrItem, tail int) ([]byte, string) {
+	// layout pass: offsets of the length fields
+	var b []byte
+	var offs []int
+	letter := byte('a')
+	for _, it := range items {
+		offs = append(offs, len(b))
+		b = append(b, 0, 0, 0, 0)
+		for j := 0; j < it.n; j++ {
+			b = append(b, letter)
+			letter++
+		}
+	}
+	for j := 0; j < tail; j++ {
+		b = append(b, 0)
+	}
+	var desc []string
+	for i, it := range items {
+		rem := uint32(len(b) - offs[i] - 4)
+		var v uint32
+		switch it.kind {
+		case "-1":
+			v = 0xffffffff
+		case "0", "1", "2":
+			v = uint32(it.n)
+		case "rem":
+			v = rem
+		case "rem+1":
+			v = rem + 1
+		case "max":
+			v = 0x7fffffff
+		case "min":
+			v = 0x80000000
+		}
+		binary.BigEndian.PutUint32(b[offs[i]:], v)
+		desc = append(desc, fmt.Sprintf("%s/%dB", it.kind, it.n))
+	}
+	return b, fmt.Sprintf("strings [%s] + %d dangling", strings.Join(desc, " "), tail)
+}
+
+// boltGridFrame builds a complete frame around a header block: class "c", content "xy". lenMode 0: the
+// header length field is right; -1: one less (the block's last byte becomes content); +1: one more (the first
+// content byte joins the block). The frame length stays consistent.
+func boltGridFrame(v2 bool, typ byte, block []byte, lenMode int) []byte {
+	var b []byte
+	if v2 {
+		b = append(b, 2, 1, typ)
+	} else {
+		b = append(b, 1, typ)
+	}
+	code := uint16(1)
+	if typ == 0 {
+		code = 2
+	}
+	b = append(b, byte(code>>8), byte(code), 1, 0, 0, 0, 7, 1)
+	if v2 {
+		b = append(b, 0)
+	}
+	if typ == 0 {
+		b = append(b, 0, 0)
+	} else {
+		b = append(b, 0, 0, 0x0b, 0xb8)
+	}
+	hl, cl := len(block)+lenMode, 2-lenMode
+	b = append(b, 0, 1, byte(hl>>8), byte(hl), 0, 0, 0, byte(cl))
+	b = append(b, 'c')
+	b = append(b, block...)
+	return append(b, 'x', 'y')
+}
+
+// BoltHeaderGrid yields the header-block grid (class hdrgrid) in request, one-way and response frames;
+// wrongLens adds the two off-by-one header length fields.
+func BoltHeaderGrid(target string, v2 bool, maxStr int, wrongLens bool, yield func(Case) bool) bool {
+	modes := []int{0}
+	if wrongLens {
+		modes = []int{0, -1, 1}
+	}
+	var rec func(items []hdrItem) bool
+	rec = func(items []hdrItem) bool {
+		for tail := 0; tail <= 1; tail++ {
+			block, desc := hdrBlock(items, tail)
+			for _, typ := range []byte{1, 2, 0} {
+				for _, m := range modes {
+					if len(block)+m < 0 {
+						continue
+					}
+					c := Case{Target: target, Frame: "constructed header block", Class: "hdrgrid",
+						Desc: fmt.Sprintf("cmdType=%d %s headerLen=true%+d", typ, desc, m), Hex: hex.EncodeToString(boltGridFrame(v2, typ, block, m))}
+					if !yield(c) {
+						return false
+					}
+				}
+			}
+		}
+		if len(items) == maxStr {
+			return true
+		}
+		for _, o := range hdrItemOptions {
+			if !rec(append(items[:len(items):len(items)], o)) {
+				return false
+			}
+		}
+		return true
+	}
+	return rec(nil)
+}
+
+// BoltHeaderRef is the independent reference parse of the header block of a complete bolt (first byte 1)
+// or boltv2 (first byte 2) frame: ok=false if the bytes are not such a frame; accept=false if the block is
+// malformed (a length field that does not fit, a key without a value, 1-3 dangling bytes); otherwise the
+// key/value pairs in order, formatted %q=%q. Semantics of a 0xFFFFFFFF length as in mosn.io/pkg/header
+// (documented there as "ignore current key value pair"): in key position it is skipped and a key follows; in
+// value position the pair is dropped.
+func BoltHeaderRef(fr []byte) (pairs []string, accept bool, ok bool) {
+	if len(fr) < 3 {
+		return nil, false, false
+	}
+	var typ byte
+	var fixed int
+	switch fr[0] {
+	case 1:
+		typ, fixed = fr[1], 22
+	case 2:
+		typ, fixed = fr[2], 24
+	default:
+		return nil, false, false
+	}
+	switch typ {
+	case 1, 2:
+	case 0:
+		fixed -= 2
+	default:
+		return nil, false, false
+	}
+	if len(fr) < fixed {
+		return nil, false, false
+	}
+	classLen := int(binary.BigEndian.Uint16(fr[fixed-8:]))
+	headerLen := int(binary.BigEndian.Uint16(fr[fixed-6:]))
+	contentLen := int(binary.BigEndian.Uint32(fr[fixed-4:]))
+	if len(fr) < fixed+classLen+headerLen+contentLen {
+		return nil, false, false
+	}
+	block := fr[fixed+classLen : fixed+classLen+headerLen]
+	next := func(i int) (s []byte, ni int, null bool, good bool) {
+		if len(block)-i < 4 {
+			return nil, 0, false, false
+		}
+		l := binary.BigEndian.Uint32(block[i:])
+		i += 4
+		if l == 0xffffffff {
+			return nil, i, true, true
+		}
+		if uint64(l) > uint64(len(block)-i) {
+			return nil, 0, false, false
+		}
+		return block[i : i+int(l)], i + int(l), false, true
+	}
+	for i := 0; i < len(block); {
+		k, ni, null, good := next(i)
+		if !good {
+			return nil, false, true
+		}
+		i = ni
+		if null {
+			continue
+		}
+		v, ni, null, good := next(i)
+		if !good {
+			return nil, false, true
+		}
+		i = ni
+		if null {
+			continue
+		}
+		pairs = append(pairs, fmt.Sprintf("%q=%q", k, v))
+	}
+	return pairs, true, true
 }
